@@ -9,6 +9,7 @@ string as `-`; naturals in decimal; lists comma separated (`-` = empty).
 import BtcHd.Model.Wallet
 import BtcHd.Model.History
 import BtcHd.Model.Cli
+import BtcHd.Model.JsonText
 import BtcHd.Prims.Sha
 import BtcHd.Prims.Secp256k1
 
@@ -391,6 +392,19 @@ def step (line : String) : String :=
         else if kind = "p2wpkh" then Wallet.segwitOf (Keys.h160 P0 K c) t
         else none
       pure (optS strS r)
+  | ["pk_seq", key, reqs] => orBad do
+      let key ← unhex key
+      let rs ← (reqs.splitOn ",").mapM fun r => match r.splitOn ":" with
+        | [c, t, kind] => do pure ((← unbool c), (← unbool t), kind)
+        | _ => none
+      let outs := rs.map fun (c, t, kind) =>
+        let r := (Real.Secp.parse key).bind fun K =>
+          if kind = "p2pkh" then some (Wallet.pubP2pkh P0 K c t)
+          else if kind = "p2wpkh" then Wallet.segwitOf (Keys.h160 P0 K c) t
+          else if kind = "h160" then some (toHex (Keys.h160 P0 K c))
+          else none
+        match r with | some a => strS a | none => "err"
+      pure (okS (" ; ".intercalate outs))
   -- C12
   | ["bip85", nd, app, param, index, prf] => orBad do
       let nd ← unnode nd; let param ← unint param; let index ← unint index; let prf ← unprf prf
@@ -410,6 +424,13 @@ def step (line : String) : String :=
   | ["paranoia", w, acct, a, b] => orBad do
       let (P, w) ← unwallet w; let acct ← unnat acct; let a ← unnat a; let b ← unnat b
       pure (optS jsonS (w.bind fun w => (Wallet.generate P w acct a b).bind Wallet.paranoia))
+  | ["json_text", w, acct, a, b, ind] => orBad do
+      let (P, w) ← unwallet w; let acct ← unnat acct; let a ← unnat a; let b ← unnat b
+      let ind ← if ind = "-" then some none else (unnat ind).map some
+      pure (optS (fun j => strS (JsonText.dumps ind j)) (w.bind fun w => Wallet.generate P w acct a b))
+  | ["json_loads", t] => orBad do
+      let t ← unstr t
+      pure (optS jsonS (JsonText.loads t))
   | ["wasabi", w] => orBad do
       let (P, w) ← unwallet w
       pure (optS jsonS (w.bind fun w => Wallet.wasabi P w))
